@@ -12,7 +12,7 @@ import types
 import z3
 
 from . import ops
-from .ops import OutOfReach
+from .ops import OutOfReach, is_intlike
 from .values import (BOOL, BYTES, INT, REAL, Bound, BytesSort, Func, Ghost,
                      MutBytes, Obj, PDict, PList, PSet, Sym, SymEnum, SymList,
                      SymMap, SymSet, concrete_int, is_byteslike, lift_bool,
@@ -198,6 +198,8 @@ class Lib:
                 r = items[slice(lo, hi, step)]
                 return PList(r) if isinstance(v, PList) else r
             raise OutOfReach("extended slice")
+        if isinstance(v, str) and all(x is None or isinstance(x, int) for x in (lo, hi)):
+            return v[lo:hi]
         if is_byteslike(v):
             if isinstance(v, (bytes, bytearray)) and \
                     all(x is None or isinstance(x, int) for x in (lo, hi)):
@@ -1110,7 +1112,26 @@ def _pl_sort(ex, l, key=None, reverse=False):
     hook = ex.opt.get("sort")
     if hook is not None:
         return hook(ex, l, key, reverse)
-    raise OutOfReach("list.sort")
+    # a list of concrete length with (possibly symbolic) integer keys: stable
+    # insertion sort, forking on every comparison the order depends on.
+    # list.sort is stable, also with reverse=True (equal keys keep their order)
+    items = list(l.items)
+    keys = [ex.call(key, [it], {}) if key is not None else it for it in items]
+    for k in keys:
+        if not is_intlike(k):
+            raise OutOfReach("list.sort with non-integer keys")
+    order = []
+    for i in range(len(items)):
+        pos = len(order)
+        while pos > 0:
+            a, b = lift_int(keys[order[pos - 1]]), lift_int(keys[i])
+            before = (a < b) if reverse else (a > b)     # must the new item move in front?
+            if not ex.fork(before, "sort comparison"):
+                break
+            pos -= 1
+        order.insert(pos, i)
+    l.items[:] = [items[i] for i in order]
+    return None
 
 
 @method_of(("RevSlice", "index"))
